@@ -362,7 +362,14 @@ class PassWorld(World):
                     return Iter(list(MSet(recv.items + args[0].items).items))
                 raise Unsupported("set method " + m)
             if isinstance(recv, Iter) and m == "collect" and not e["args"] and any(t_ in str(e.get("turbofish") or "") for t_ in SET_TYPES):
-                return MSet(recv.rest())
+                items_ = recv.rest()
+                if "Option<" in str(e.get("turbofish") or "").replace(" ", ""):
+                    if any(x == NONE for x in items_):
+                        return NONE
+                    if not all(isinstance(x, tuple) and len(x) > 2 and x[0] == "S" and x[1] == "Some" for x in items_):
+                        raise Unsupported("collect into Option of non-options")
+                    return S("Some", MSet([x[2][0] for x in items_]))
+                return MSet(items_)
             if isinstance(recv, MMap):
                 args = [self.eval(a, env, uses) for a in e["args"]]
                 if m == "insert" and len(args) == 2:
